@@ -40,6 +40,15 @@ Theorem C11_hit_creates_reader_of_key :
 Proof. exact get_out. Qed.
 Print Assumptions C11_hit_creates_reader_of_key.
 
+(* The same for the three lookups of one Get taken as separate schedule steps (memory LRU, descriptor LRU, open): each
+   either misses and changes nothing or creates exactly one open reader of the requested key - so C11_hit_is_committed
+   covers a Get that is overtaken by commits, evictions, Close, ... between its lookups. *)
+Theorem C11_lookup_steps_hit_creates_reader_of_key :
+  forall (s : st) (k : nat) (d : bool),
+    lookup_out s k (step s (GetMem k)) /\ lookup_out s k (step s (GetFd k)) /\ lookup_out s k (step s (GetOpen k d)).
+Proof. exact lookup_steps_out. Qed.
+Print Assumptions C11_lookup_steps_hit_creates_reader_of_key.
+
 (* never a buffer that is being recycled / a descriptor that is being closed: while a reader is open, the bytes.Buffer
    it aliases still holds its value, is not in the pool and belongs to no open writer; its *os.File is open. *)
 Theorem C11_no_recycle_under_reader :
